@@ -54,7 +54,11 @@ class Spec(object):
         self.adds = [("add", e, p, s) for e in events for p in priorities for s in stop_kinds]
         # "dispatch": the caller passes its own Event; "dispatch0": no event given (the dispatcher creates one)
         self.disp = [("dispatch", e) for e in events + foreign] + [("dispatch0", e) for e in events]
-        self.qops = [("get_listeners", e) for e in events[:1]] + [("get_listeners_all",)] if query_ops else []
+        # queries as *operations* of the history (a query must not change what later dispatches do): on a registered event,
+        # on an event nobody registers for, and without an event
+        self.qops = ([("get_listeners", e) for e in events[:1]] + [("get_listeners_all",)] +
+                     [("has_listeners", e) for e in events[:1] + foreign] + [("has_listeners", None)] +
+                     [("get_listener_priority", e) for e in events[:1] + foreign]) if query_ops else []
 
     def init(self):
         from clikit.api.event.event_dispatcher import EventDispatcher
@@ -123,6 +127,10 @@ class Spec(object):
             st.d.get_listeners(op[1])
         elif op[0] == "get_listeners_all":
             st.d.get_listeners()
+        elif op[0] == "has_listeners":
+            st.d.has_listeners(op[1])
+        elif op[0] == "get_listener_priority":
+            st.d.get_listener_priority(op[1], L(0, False))
         if not vs:
             vs = self.queries(st)
         return vs
